@@ -2,9 +2,12 @@
 
 package dastard
 
+import "sync"
+
 // No-op counterparts of the verification hooks in verif_on.go (normal builds).
 
-func vpoint(string)         {}
-func vevent(string, ...any) {}
-func vcrash(string) bool    { return false }
-func vrecover(string)       {}
+func vpoint(string)             {}
+func vevent(string, ...any)     {}
+func vheld(string, *sync.Mutex) {}
+func vcrash(string) bool        { return false }
+func vrecover(string)           {}
